@@ -307,6 +307,9 @@ fn roles_for(c: usize) -> RoleAssignment {
 // observations and expectations
 // ------------------------------------------------------------------------------------------
 
+/// number of answers whose error class differed from the model's (not a violation, see `matches`)
+pub static CLASS_DIFFERS: std::sync::atomic::AtomicU64 = std::sync::atomic::AtomicU64::new(0);
+
 /// error classes (coarse view of `ApiError`)
 #[derive(Clone, Copy, PartialEq, Eq, Hash, Debug, PartialOrd, Ord)]
 pub enum EC {
@@ -368,7 +371,16 @@ impl Exp {
             (Exp::Ok(None), Obs::Ok(_)) => true,
             (Exp::Ok(Some(a)), Obs::Ok(Some(b))) => a == b,
             (Exp::Err(cs, st), Obs::Err(c, rep)) => {
-                (cs.contains(&EC::Any) || cs.contains(c)) && (st.is_none() || rep.is_none() || st == rep)
+                // The property asks for *an error* that leaves the state unchanged; which variant
+                // of which error enum carries it is the code's choice (a renamed or re-classified
+                // error must not alarm). The class is therefore not compared - a difference is
+                // only counted (label `error-class-differs-from-model`). A state named inside the
+                // error ("cannot transition from state X") is compared: the helper must not
+                // report a state it is not in.
+                if !(cs.contains(&EC::Any) || cs.contains(c)) {
+                    CLASS_DIFFERS.fetch_add(1, std::sync::atomic::Ordering::Relaxed);
+                }
+                st.is_none() || rep.is_none() || st == rep
             }
             (Exp::Pending, Obs::Pending) => true,
             _ => false,
